@@ -4,6 +4,7 @@
 //! or a witness result.
 mod archive;
 mod capi;
+mod capiread;
 mod cli;
 mod comp;
 mod derive;
@@ -38,6 +39,10 @@ fn main() {
     }
     if args[1] == "c20-child" {
         capi::child_main();
+        return;
+    }
+    if args[1] == "c20r-child" {
+        capiread::child_main();
         return;
     }
     let seed: u64 = arg(&args, "--seed").and_then(|s| s.parse().ok()).unwrap_or(1);
@@ -95,6 +100,7 @@ fn main() {
         }
         "c08-wit" => fuzz::wit_child(args.get(2).map(|s| s.as_str()).unwrap_or("")),
         "c20" => capi::c20_cases(&mut rng, &tier, &mut out),
+        "c20r" => capiread::c20r_cases(&mut rng, &tier, &mut out),
         "c15" => mem::c15_cases(&mut rng, &tier, &mut out),
         "c15-dims" => memdims::c15_dims_cases(&mut rng, &tier, &mut out),
         "c15-blocks" => memdims::c15_blocks_cases(&mut rng, &tier, &mut out),
